@@ -94,9 +94,20 @@ def match_tuple(mt):
 # ------------------------------------------------------------------ oracle pieces (property text)
 @functools.lru_cache(maxsize=None)
 def _tables():
-    from cutadapt._match_tables import _acgt_table, _iupac_table, _upper_table
-
-    return _acgt_table(), _iupac_table(), _upper_table()
+    """the documented character rules, written down here independently of cutadapt._match_tables (an oracle that took them from the
+    implementation would follow it into its mistakes): A, C, G, T and U = T in either case; the IUPAC codes in either case, N
+    matching everything (also characters that are no nucleotide), X matching nothing; without wildcards, equality after upper-casing"""
+    acgt = [0x80] * 256
+    for c, v in dict(A=1, C=2, G=4, T=8, U=8).items():
+        acgt[ord(c)] = acgt[ord(c.lower())] = v
+    codes = dict(X="", A="A", C="C", G="G", T="T", U="T", R="AG", Y="CT", S="GC", W="AT", K="GT", M="AC", B="CGT", D="AGT", H="ACT", V="ACG", N="ACGT")
+    bit = dict(A=1, C=2, G=4, T=8)
+    iupac = [0] * 256
+    for c, members in codes.items():
+        v = sum(bit[x] for x in members) | (0x80 if c == "N" else 0)
+        iupac[ord(c)] = iupac[ord(c.lower())] = v
+    upper = [ord(chr(i).upper()) if i < 128 and len(chr(i).upper()) == 1 else i for i in range(256)]
+    return bytes(acgt), bytes(iupac), bytes(upper)
 
 
 def char_eq(wref, wq):
